@@ -1,3 +1,3 @@
-From Coq Require Import ZArith List Bool Arith Lia.
-From QE Require Import C03.Model.
-Import ListNotations.
+(* C03 proofs: see Proofs1 (closure, classes, sinks), Proofs2 (repository logic on any valid labelling),
+   Proofs3 (walks, Jarvis-Shier), Proofs4 (_compute_period on any valid BFS tree), Proofs5 (specification BFS). *)
+From QE Require Export C03.Proofs1 C03.Proofs2 C03.Proofs3 C03.Proofs4 C03.Proofs5.
